@@ -232,6 +232,7 @@ class State:
         self.model = []    # reference model: creation indices of children currently held, insertion order
         self.outcomes = []
         self.detached = []  # creation indices of children removed / replaced away
+        self.how = {}       # creation index -> the operation that attached the child
 
     def names(self):
         return [self.made[i].name for i in self.model]
@@ -256,6 +257,7 @@ def apply(st, op, child_mode='opaque'):
             o = call(el.add_child, ch, op[2])
         if o.ok:
             st.model.append(idx)
+            st.how[idx] = op
     elif k == 'R':
         st.made.append(None)
         i = op[1]
@@ -274,6 +276,7 @@ def apply(st, op, child_mode='opaque'):
         if o.ok and i in st.model:
             st.model[st.model.index(i)] = idx
             st.detached.append(i)
+            st.how[idx] = ('A', op[2])
     elif k == 'Xs':
         name, mode = op[1], op[2]
         cur = [i for i in st.model if st.made[i].name == name]
